@@ -84,7 +84,7 @@ Flat(ss) == IF ss = <<>> THEN <<>> ELSE Head(ss) \o Flat(Tail(ss))
 (* request classes                                                           *)
 
 RoutedEps == {"PartialBeacon", "PublicRand", "PublicRandStream", "SyncChain", "ChainInfo", "GetIdentity", "Status"}
-PlainEps  == {"ListBeaconIDs", "Metrics", "HttpChains"}
+PlainEps  == {"ListBeaconIDs", "Metrics", "HttpChains", "ProbeHttpTable"}   \* (ProbeHttpTable: the daemon's own write access to the HTTP table, used as a probe)
 HttpEps   == {"HttpInfo", "HttpLatest", "HttpRound", "HttpHealth"}
 
 \* body classes: what decides the path through the handler after routing
@@ -173,6 +173,7 @@ Prog(nsv, c) ==
   CASE c.ep \in RoutedEps -> RoutedOps(s, c)
     [] c.ep = "ListBeaconIDs" -> <<Acq("dd", "R", TRUE), Rel("dd"), Ret("ok")>>
     [] c.ep \in {"Metrics", "HttpChains"} -> <<Ret("ok")>>
+    [] c.ep = "ProbeHttpTable" -> <<Acq("hs", "W", TRUE), Rel("hs"), Ret("ok")>>
     [] c.ep = "DKGPacket" -> DKGPacketOps(nsv, s, c)
     [] c.ep = "BroadcastDKG" -> BroadcastOps(s, c)
     [] c.ep \in HttpEps -> HttpOps(s, c)
@@ -233,7 +234,8 @@ HeldLocks(L) == {l \in Locks : L[l].w # 0 \/ L[l].r # {}}
 \* outcome of one call on a quiescent daemon in node state s
 Outcome(s, c) == RunSeq(Prog(s, c), 1, FreeLocks, 1, <<>>)
 \* would call p return if it were made after call c (p runs on what c left behind)?
-ProbeAfter(s, c, p) == RunSeq(Prog(s, p), 1, Outcome(s, c).L, 2, <<>>)
+ProbeFrom(s, L, p) == RunSeq(Prog(s, p), 1, L, 2, <<>>)
+ProbeAfter(s, c, p) == ProbeFrom(s, Outcome(s, c).L, p)
 
 -----------------------------------------------------------------------------
 (* Monitors (on observed outcomes; also the invariants of the Seq machine)   *)
